@@ -41,15 +41,15 @@ def correspond(ctx):
         s = ranksel.spectrum(ctx.rng, k, "dyadic")
         thr = ranksel.tie_threshold(s, int(ctx.rng.integers(0, k + 1))) if ctx.rng.random() < 0.5 else float(2.0 ** -int(ctx.rng.integers(1, 30)))
         maxb = None if ctx.rng.random() < 0.3 else int(ctx.rng.integers(1, 6))
-        tcases.append(dict(s=s, d=d, L=L, R=R, thr=thr, maxb=maxb))
-        impl.append(ranksel.impl_tss_keep(s, d, L, R, thr, maxb))
-        exprs.append(ranksel.model_tss(s, thr, maxb))
+        minb = int(ctx.rng.choice([1, 2, 2, 3, 7]))
+        tcases.append(dict(s=s, d=d, L=L, R=R, thr=thr, maxb=maxb, minb=minb))
+        impl.append(ranksel.impl_tss_keep(s, d, L, R, thr, maxb, minb))
+        exprs.append(ranksel.model_tss(s, thr, maxb, minb))
     vals = common.coq_eval_sharded(ranksel.HEADER, exprs, tag="tss")
     for c, i, m in zip(tcases, impl, vals):
-        ctx.case(nontrivial_key=("tss", tuple(c["s"]), c["thr"], c["maxb"]) if isinstance(i, int) and i < len(c["s"]) else None, validated=True)
+        ctx.case(nontrivial_key=("tss", tuple(c["s"]), c["thr"], c["maxb"], c["minb"]) if isinstance(i, int) and i < len(c["s"]) else None, validated=True)
         ctx.count("two_site_svd")
-        want = min(m, len(c["s"])) if isinstance(m, int) else m  # slicing u[:, :keep] cannot exceed the rank
-        if i != m and not (isinstance(i, str) and m > len(c["s"])):
+        if i != m:
             ctx.mismatch("two_site_svd-vs-RankSelect.keep_tss", c, i, m)
         if isinstance(i, int) and c["maxb"] is not None and i > c["maxb"]:
             ctx.violation("tss-cap", f"two_site_svd kept {i} > max_bond_dim={c['maxb']}", {"oracle": "tss", **c, "kept": i})
@@ -124,6 +124,27 @@ def bonds_of(state):
     return [int(t.shape[2]) for t in state.tensors[:-1]]
 
 
+class SamplingBonds:
+    """Records the internal bonds of every state handed to MPS.evaluate_observables (the sampling points).  The max_bond
+    diagnostic itself also compares the physical dimension (shape[0]) and therefore never reports less than 2."""
+
+    def __enter__(self):
+        from mqt.yaqs.core.data_structures.networks import MPS
+
+        self.cls, self.orig, self.worst = MPS, MPS.evaluate_observables, 0
+        rec = self
+
+        def wrapped(state, *a, **k):
+            rec.worst = max([rec.worst] + bonds_of(state))
+            return rec.orig(state, *a, **k)
+
+        MPS.evaluate_observables = wrapped
+        return self
+
+    def __exit__(self, *exc):
+        self.cls.evaluate_observables = self.orig
+
+
 def run_digital(cap, mode, seed, n=4, depth=6, noisy=False, minb=2):
     from qiskit import QuantumCircuit
 
@@ -152,8 +173,10 @@ def run_digital(cap, mode, seed, n=4, depth=6, noisy=False, minb=2):
                          {"name": "lowering", "sites": [0], "strength": 0.2}])
     p = StrongSimParams(obs, num_traj=3 if noisy else 1, max_bond_dim=cap, min_bond_dim=minb, trunc_mode=mode,
                         threshold=thr, get_state=not noisy, show_progress=False)
-    simulator.run(MPS(n, state="zeros"), qc, p, nm, parallel=False)
-    worst = int(np.max(np.real(obs[0].trajectories)))
+    with SamplingBonds() as sb:
+        simulator.run(MPS(n, state="zeros"), qc, p, nm, parallel=False)
+    diag = int(np.max(np.real(obs[0].trajectories)))
+    worst = max(sb.worst, diag if diag > 2 else 0)  # the diagnostic includes the physical dimension 2
     if not noisy:
         worst = max(worst, max(bonds_of(p.output_state)))
     return worst
@@ -179,8 +202,10 @@ def run_analog(cap, mode, seed, L=4, order=2, noisy=False, minb=2, bug=False, th
                         show_progress=False, evolution_mode=EvolutionMode.BUG if bug else EvolutionMode.TDVP)
     H = MPO.ising(L, 1.0, 0.7 + 0.01 * (seed % 7))
     st = MPS(L, state="x+" if seed % 2 else "Neel")
-    simulator.run(st, H, p, nm, parallel=False)
-    worst = int(np.max(np.real(obs[0].trajectories)))
+    with SamplingBonds() as sb:
+        simulator.run(st, H, p, nm, parallel=False)
+    diag = int(np.max(np.real(obs[0].trajectories)))
+    worst = max(sb.worst, diag if diag > 2 else 0)  # the diagnostic includes the physical dimension 2
     if not noisy:
         worst = max(worst, max(bonds_of(p.output_state)))
     return worst
@@ -205,14 +230,16 @@ def search(ctx):
             plan.append(("analog-bug", cap, "discarded_weight", False, thr))
     plan += [("digital", 2, "discarded_weight", True), ("analog", 3, "discarded_weight", True),
              ("analog", 3, "relative", True), ("digital", 3, "relative", True)]
+    # product-state bonds with max_bond_dim = min_bond_dim = 1: the SVD-based centre shifts must not pad them
+    ones = [("analog", 1, "relative", True), ("digital", 1, "discarded_weight", True), ("analog", 1, "discarded_weight", False)]
     reps = 1 if ctx.quick else 3
     for rep in range(reps):
-        for item in plan:
+        for item in plan + [o + (None, 1) for o in ones]:
             kind, cap, mode, noisy = item[:4]
             thr = item[4] if len(item) > 4 else None
             bug = kind == "analog-bug"
             seed = int(ctx.rng.integers(0, 10**6))
-            minb = 2 if rep == 0 else int(ctx.rng.choice([1, 2]))
+            minb = item[5] if len(item) > 5 else 2 if rep == 0 else int(ctx.rng.choice([1, 2]))
             try:
                 worst = whole_run("analog" if bug else kind, cap, mode, seed, noisy, minb, bug=bug, thr=thr)
             except common.HardTimeout:
@@ -237,7 +264,7 @@ def replay(ctx, data):
         bound = max(rp["maxb"], min(rp["minb"], k)) if rp["mode"] == "discarded_weight" else max(rp["maxb"], rp["minb"])
         return f"kept {i} > {bound}" if not isinstance(i, int) or i > bound else None
     if rp.get("oracle") == "tss":
-        i = ranksel.impl_tss_keep(rp["s"], rp["d"], rp["L"], rp["R"], rp["thr"], rp["maxb"])
+        i = ranksel.impl_tss_keep(rp["s"], rp["d"], rp["L"], rp["R"], rp["thr"], rp["maxb"], rp.get("minb", 2))
         return f"kept {i} > {rp['maxb']}" if isinstance(i, int) and i > rp["maxb"] else None
     if rp.get("oracle") == "truncate":
         calls, bonds, _ = truncate_trace(rp["L"], rp["chi"], rp["center"], rp["thr"], rp["cap"], 1)
